@@ -192,6 +192,38 @@ def processor_files():
     return out
 
 
+def named_end_files():
+    """endfunction()/endmacro() with the (optional, legacy) name argument, nested, where the name is written differently
+    from the opening command's first argument (CMake compares evaluated arguments, and only warns)"""
+    out = []
+    d = "#[[[\n# doc\n#]]\n"
+    for kind in ("function", "macro"):
+        e = "end" + kind
+        for d1 in ("", d):
+            out.append((f"{kind}: quoted inner name, bare name at the end", f"{d1}{kind}(outer)\n  {d1}{kind}(\"inner\")\n  {e}(inner)\n{e}(outer)\n"))
+            out.append((f"{kind}: reference as inner name", f"set(helper inner)\n{d1}{kind}(outer a)\n  {kind}(${{helper}})\n  {e}(inner)\n{e}()\n"))
+            out.append((f"{kind}: names in another case", f"{d1}{kind}(Outer)\n  {d1}{kind}(Inner x)\n  {e}(INNER)\n{e}(OUTER)\n"))
+            out.append((f"{kind}: named end after a test body", f"{d1}ct_add_test(NAME t)\n{kind}(${{t}})\n  {kind}(helper)\n  {e}(helper)\n{e}(t)\n"))
+    return out
+
+
+def check_def_params(L):
+    """a documented function()/macro() with one parameter written as lexeme L: the definition's parameter list, as the
+    listener recorded it, is that one parameter (a lexeme with a line break inside is still one argument)"""
+    msgs = []
+    for kind in ("function", "macro"):
+        text = f"#[[[\n# doc\n#]]\n{kind}(f {L} tail)\nend{kind}()\n"
+        r = pipeline.document_text(text)
+        if r["page"] is None:
+            msgs.append(f"rejected: Documenter.process() failed: {r['error'][:160]}")
+            continue
+        docs = [x for x in getattr(getattr(r["documenter"], "aggregator", None), "documented", []) if hasattr(x, "params")]
+        if docs and list(docs[0].params) != [L, "tail"]:
+            msgs.append(f"boundaries: {kind}(f {L!r} tail): the listener recorded the parameters {list(docs[0].params)!r}")
+    return {"viol": msgs, "obs": common.digest(L), "nt": common.digest(L), "n": 2, "cls": msgs[0].split(":")[0] + " parameters" if msgs else None,
+            "case": {"label": "definition parameter", "def_param": L}}
+
+
 def redefinition_files():
     """the same function/macro name defined more than once (branches of an if, case variants, overloads by arity)"""
     d = "#[[[\n# doc\n#]]\n"
@@ -406,6 +438,8 @@ def documented_uses(lexemes):
         out.append((f"class/attr/member with {L!r}", f"{d}cpp_class(C {L})\n{d}cpp_attr(C a {L})\n{d}cpp_member(m C {L})\n"
                                                       f"function(\"${{m}}\" self {L})\nendfunction()\ncpp_end_class()\n"))
         out.append((f"test with {L!r}", f"{d}ct_add_test(NAME {L})\nfunction({L})\nendfunction()\n"))
+        out.append((f"test/section bodies with parameters {L!r}", f"{d}ct_add_test(NAME t)\nfunction(${{t}} {L} p2)\n{d}ct_add_section(NAME s)\n"
+                                                                     f"macro(${{s}} p1 {L} p3)\nendmacro()\nendfunction()\n"))
     return out
 
 
@@ -474,6 +508,8 @@ def run(ctx):
               space="documented commands x lexemes", selftest=3)
     ctx.sweep(check_file, boundary_files(), space="multi-byte characters at buffer boundaries", selftest=2)
     ctx.sweep(check_file, redefinition_files(), space="a name defined more than once", selftest=2)
+    ctx.sweep(check_file, named_end_files(), space="named end commands", selftest=2)
+    ctx.sweep(check_def_params, [l for l in LEX if not l.startswith("(")], space="definition parameters x lexemes", selftest=2)
     ctx.sweep(check_file, processor_files(), space="every specially processed command name x arity x context", selftest=2)
     rp = rewrite_pairs(cmds, 3 if quick else 12)
     ctx.sweep(check_rewrite, rp, space="one path rewritten with equal size and mtime", selftest=2)
@@ -503,6 +539,8 @@ def run(ctx):
 def replay(case):
     if "sig_args" in case:
         return check_signature(case["sig_args"])["viol"]
+    if "def_param" in case:
+        return check_def_params(case["def_param"])["viol"]
     if "rewrite" in case:
         return common.in_fork(check_rewrite, tuple(case["rewrite"]))["viol"]
     if "path" in case:
